@@ -40,10 +40,12 @@ static void harness_setup(void) {
 
 /* routine table */
 enum { R_EP_MONTY, R_EP_LWREG, R_EP_LWNAF /* control: must vary */, R_BN_MXP_MONTY, R_BN_MXP_SLIDE /* control */, R_FP_EXP_MONTY, R_BN_REC_REG,
-	R_EP2_MONTY, R_EP2_LWREG, R_G1_SEC, R_G2_SEC, R_GT_SEC, R_EB_LODAH, R_EB_RWNAF, R_DV_COPY, R_DV_SWAP, R_DV_CMP, R_UTIL_CMP, R_FP_COPY, R_DV_CMP_NONCT /* control */, R_LAST };
+	R_EP2_MONTY, R_EP2_LWREG, R_G1_SEC, R_G2_SEC, R_GT_SEC, R_EB_LODAH, R_EB_RWNAF, R_DV_COPY, R_DV_SWAP, R_DV_CMP, R_UTIL_CMP, R_FP_COPY, R_DV_CMP_NONCT /* control */,
+	R_ED_MONTY, R_ED_LWREG, R_ED_LWNAF /* control */, R_FB_EXP_MONTY, R_FB_EXP_SLIDE /* control */, R_LAST };
 static const char *RN_[] = {"ep_mul_monty", "ep_mul_lwreg", "ep_mul_lwnaf(control)", "bn_mxp_monty", "bn_mxp_slide(control)", "fp_exp_monty", "bn_rec_reg",
-	"ep2_mul_monty", "ep2_mul_lwreg", "g1_mul_sec", "g2_mul_sec", "gt_exp_sec", "eb_mul_lodah", "eb_mul_rwnaf(control)", "dv_copy_sec", "dv_swap_sec", "dv_cmp_sec", "util_cmp_sec", "fp_copy_sec", "dv_cmp(control)"};
-static int is_control(int r) { return r == R_EP_LWNAF || r == R_BN_MXP_SLIDE || r == R_DV_CMP_NONCT || r == R_EB_RWNAF /* right-to-left w-NAF: not regular */; }
+	"ep2_mul_monty", "ep2_mul_lwreg", "g1_mul_sec", "g2_mul_sec", "gt_exp_sec", "eb_mul_lodah", "eb_mul_rwnaf(control)", "dv_copy_sec", "dv_swap_sec", "dv_cmp_sec", "util_cmp_sec", "fp_copy_sec", "dv_cmp(control)",
+	"ed_mul_monty", "ed_mul_lwreg", "ed_mul_lwnaf(control)", "fb_exp_monty", "fb_exp_slide(control)"};
+static int is_control(int r) { return r == R_EP_LWNAF || r == R_BN_MXP_SLIDE || r == R_DV_CMP_NONCT || r == R_EB_RWNAF /* right-to-left w-NAF: not regular */ || r == R_ED_LWNAF || r == R_FB_EXP_SLIDE; }
 
 static long pc_cid = -7;
 static int need_pairing(void) {
@@ -92,6 +94,22 @@ static uint64_t run_routine(int rid, long cid, const mpz_t k, int slot, int *thr
 		eb_t g, r, e; eb_new(g); eb_new(r); eb_new(e); eb_curve_get_gen(g); vf_reseed();
 		if (rid == R_EB_LODAH) REC(slot, VF_TRY(th, eb_mul_lodah(r, g, bk))); else REC(slot, VF_TRY(th, eb_mul_rwnaf(r, g, bk)));
 		if (!th) { eb_mul_basic(e, g, bk); dg = eb_cmp(e, r) == RLC_EQ ? 1 : 2; }
+	}
+#endif
+#if WSIZE == 64 && FP_PRIME == 255 && defined(WITH_ED)
+	else if (rid >= R_ED_MONTY && rid <= R_ED_LWNAF) {
+		static int ed_set = 0; if (!ed_set) { int t2; VF_TRY(t2, ed_param_set(CURVE_ED25519)); if (t2) { *thrown = 1; return 0; } ed_set = 1; }
+		ed_t g, r, e; ed_new(g); ed_new(r); ed_new(e); ed_curve_get_gen(g); vf_reseed();
+		if (rid == R_ED_MONTY) REC(slot, VF_TRY(th, ed_mul_monty(r, g, bk))); else if (rid == R_ED_LWREG) REC(slot, VF_TRY(th, ed_mul_lwreg(r, g, bk))); else REC(slot, VF_TRY(th, ed_mul_lwnaf(r, g, bk)));
+		if (!th) { ed_mul_basic(e, g, bk); dg = ed_cmp(e, r) == RLC_EQ ? 1 : 2; }
+	}
+#endif
+#if WSIZE == 64 && defined(WITH_FB)
+	else if (rid == R_FB_EXP_MONTY || rid == R_FB_EXP_SLIDE) {
+		static int fb_set = 0; if (!fb_set) { fb_param_set_any(); fb_set = 1; }
+		fb_t a, c, e; fb_new(a); fb_new(c); fb_new(e); fb_set_dig(a, 0x53);
+		if (rid == R_FB_EXP_MONTY) REC(slot, VF_TRY(th, fb_exp_monty(c, a, bk))); else REC(slot, VF_TRY(th, fb_exp_slide(c, a, bk)));
+		if (!th) { fb_exp_basic(e, a, bk); dg = fb_cmp(e, c) == RLC_EQ ? 1 : 2; }
 	}
 #endif
 	*thrown = th; return dg;
@@ -199,6 +217,20 @@ static void enumerate(void) {
 	}
 #else
 	/* shipped sizes: secrets of the order's length from a structured alphabet */
+#if FP_PRIME == 255 && defined(WITH_ED)
+	if (vf_bound_on("w64-ed25519-secrets")) { /* secrets of ONE bit length (252: bit 251 set), all below the order 2^252 + c */
+		int th; VF_TRY(th, ed_param_set(CURVE_ED25519)); const unsigned long TB = 251;
+#define FIXLEN(T) do { mpz_fdiv_r_2exp(T, T, TB); mpz_setbit(T, TB); } while (0)
+		vf_dom S; vf_dom_init(&S);
+		mpz_set_ui(t, 0); FIXLEN(t); vf_dom_add(&S, t); /* 2^251: lowest weight */ mpz_set_ui(t, 1); mpz_mul_2exp(t, t, TB + 1); mpz_sub_ui(t, t, 1); vf_dom_add(&S, t); /* all ones */
+		for (long x = 1; x <= 40; x++) { mpz_set_si(t, x); FIXLEN(t); vf_dom_add(&S, t); mpz_set_ui(t, 1); mpz_mul_2exp(t, t, TB + 1); mpz_sub_ui(t, t, (unsigned long)x); vf_dom_add(&S, t); }
+		for (int run = 1; run <= 200; run += (run < 8 ? 1 : 9)) for (int off = 0; off < 4; off++) { int offs[] = {0, 1, 64, 130}; if (run + offs[off] >= (int)TB) continue; mpz_set_ui(t, 1); mpz_mul_2exp(t, t, (unsigned long)run); mpz_sub_ui(t, t, 1); mpz_mul_2exp(t, t, (unsigned long)offs[off]); FIXLEN(t); vf_dom_add(&S, t); /* a run of ones in zeros */ mpz_com(t, t); FIXLEN(t); vf_dom_add(&S, t); /* a run of zeros in ones */ }
+		for (unsigned long b = 0; b < TB; b += 5) { mpz_set_ui(t, 0); mpz_setbit(t, b); FIXLEN(t); vf_dom_add(&S, t); }
+		mpz_set_str(t, "7d3b1a40c29f1e8f7a5b6c3d2e1f0a9b8c7d6e5f4a3b2c1d0e9f8a7b6c5d4e3f", 16); for (int i = 0; i < (vf_tier ? 400 : 80); i++) { mpz_mul_ui(t, t, 0x9E3779B1UL); mpz_add_ui(t, t, 12345); FIXLEN(t); vf_dom_add(&S, t); }
+		vf_dom_uniq(&S); mpz_set_str(kref, "0c9a1b2d4e5f60718293a4b5c6d7e8f90a1b2c3d4e5f60718293a4b5c6d7e8f9", 16); FIXLEN(kref);
+		int rr[] = {R_ED_MONTY, R_ED_LWREG, R_ED_LWNAF}; for (unsigned ri = 0; ri < 3; ri++) for (int j = 0; j < S.n && !vf_expired(); j++) if (vf_mine()) reg(rr[ri], CURVE_ED25519, kref, S.v[j]);
+		vf_dom_clear(&S); vf_bound_done("w64-ed25519-secrets"); (void)th; }
+#endif
 #if FP_PRIME == 256
 	static const int CIDS[] = {NIST_P256, BSI_P256, SECG_K256, SM2_P256, BN_P256, SM9_P256};
 	for (unsigned ci = 0; ci < 6; ci++) { char bn[48]; snprintf(bn, sizeof bn, "w64-secrets-curve-%d", CIDS[ci]);
@@ -222,6 +254,10 @@ static void enumerate(void) {
 			int rr[] = {R_EB_LODAH, R_EB_RWNAF}; for (unsigned ri = 0; ri < 2; ri++) for (long x = 1; x <= (vf_tier ? 200 : 60); x++) if (vf_mine()) { mpz_set(t, kref); mpz_mul_ui(t, t, (unsigned long)x * 2654435761UL); mpz_mod(t, t, RN); if (x % 3 == 0) { mpz_set_si(t, x); } if (x % 3 == 1 && x < 30) { mpz_set_si(t, x); mpz_sub(t, RN, t); } if (mpz_sgn(t)) reg(rr[ri], ebc[ci], kref, t); } }
 		vf_bound_done("w64-binary-curves");
 	}
+	if (vf_bound_on("w64-binary-field-exponents")) { /* exponents of one fixed bit length (200): every Hamming-weight / zero-run shape of the alphabet */
+		mpz_set_ui(kref, 1); mpz_mul_2exp(kref, kref, 199); mpz_add_ui(kref, kref, 0x12345);
+		int rr[] = {R_FB_EXP_MONTY, R_FB_EXP_SLIDE}; for (unsigned ri = 0; ri < 2; ri++) for (long x = 0; x < (vf_tier ? 400 : 120); x++) if (vf_mine()) { mpz_set_ui(t, 1); mpz_mul_2exp(t, t, 199); if (x % 4 == 0) mpz_add_ui(t, t, (unsigned long)x); else if (x % 4 == 1) { mpz_t u; mpz_init_set_ui(u, 1); mpz_mul_2exp(u, u, (unsigned long)(x % 190) + 2); mpz_sub_ui(u, u, 1); mpz_add(t, t, u); mpz_clear(u); } else if (x % 4 == 2) { mpz_mul_2exp(t, t, 1); mpz_sub_ui(t, t, 1); mpz_fdiv_q_2exp(t, t, 1); mpz_clrbit(t, (unsigned long)(x % 198)); mpz_setbit(t, 199); } else { mpz_t u; mpz_init_set_ui(u, (unsigned long)x * 2654435761UL); mpz_pow_ui(u, u, 6); mpz_fdiv_r_2exp(u, u, 199); mpz_add(t, t, u); mpz_clear(u); } reg(rr[ri], 0, kref, t); }
+		vf_bound_done("w64-binary-field-exponents"); }
 #endif
 #endif
 #endif /* CT_REG */
